@@ -2,6 +2,7 @@ import NixModel.Pure.Tagging
 import NixModel.Lemmas.C08Axis
 import NixModel.Lemmas.C08Slices
 import NixModel.Lemmas.C08View
+import NixModel.Lemmas.C08Lookup
 import NixModel.Props.C06
 
 /-!
@@ -485,6 +486,210 @@ theorem C08_feature_multi (t : MTagDesc) (nfeats idx : Nat) (stop : SliceMode) (
       | exact ws h1 h3 h4 h5 h6 => simp only [viewIfInData, h3, h4]; exact ⟨trivial, trivial, h5, h6⟩
       | beyond ws h1 h2 h3 h4 => simp only [viewIfInData, h3]; exact Or.inr ⟨trivial, Or.inr h2⟩
 
+/-! ## addressing the reference / the feature: index (creation order, negative from the end), id, name -/
+
+/-- **Reference lookup** (`LinkContainer.__getitem__`). The references are kept in the order they were appended:
+index `i` is the `i`-th, index `-(k+1)` the one `k` places before the end, anything else `IndexError`; with
+pairwise distinct ids the id of entry `i` finds entry `i`; with pairwise distinct names the name of entry `i` finds
+entry `i` (unless the name parses as a UUID and is the id of a linked entity: ids are tried first); a text that is
+neither an id nor a name of a linked entity is `KeyError`, and so is any other object; an `ok` answer is always an
+index of the list. -/
+theorem C08_reference_lookup (refs : List RefEnt) :
+    (∀ i, i < refs.length → refLookup refs (.idx (i : Int)) = .ok i) ∧
+    (∀ k, k < refs.length → refLookup refs (.idx (-((k : Int) + 1))) = .ok (refs.length - 1 - k)) ∧
+    (∀ i : Int, ((refs.length : Int) ≤ i ∨ i < -(refs.length : Int)) → refLookup refs (.idx i) = .error .indexError) ∧
+    (refs.Pairwise (fun a b => a.id ≠ b.id) → ∀ i r, refs[i]? = some r → refLookup refs (.text r.id true) = .ok i) ∧
+    (refs.Pairwise (fun a b => a.name ≠ b.name) → ∀ i r uuid, refs[i]? = some r →
+      (uuid = true → ∀ r', r' ∈ refs → r'.id ≠ r.name) → refLookup refs (.text r.name uuid) = .ok i) ∧
+    (∀ s uuid, (uuid = true → ∀ r, r ∈ refs → r.id ≠ s) → (∀ r, r ∈ refs → r.name ≠ s) →
+      refLookup refs (.text s uuid) = .error .keyError) ∧
+    refLookup refs .other = .error .keyError ∧
+    (∀ key k, refLookup refs key = .ok k → k < refs.length) := by
+  refine ⟨fun i h => posOf_nat _ _ h, fun k h => posOf_neg _ _ h, ?_, ?_, ?_, ?_, rfl, refLookup_lt refs⟩
+  · intro i h
+    rcases h with h | h
+    · exact posOf_beyond _ _ h
+    · exact posOf_before _ _ h
+  · intro hd i r hr
+    have := findIdx?_of_distinct refs (fun r => r.id) hd i r hr
+    simp only [refLookup, if_true, this]
+  · intro hd i r uuid hr hno
+    have hn := findIdx?_of_distinct refs (fun r => r.name) hd i r hr
+    have hid : (if uuid = true then refs.findIdx? (fun r' => r'.id == r.name) else none) = none := by
+      cases uuid with
+      | false => rfl
+      | true =>
+        simp only [if_true, List.findIdx?_eq_none_iff]
+        intro x hx
+        simpa using hno rfl x hx
+    simp only [refLookup, hid, hn]
+  · intro s uuid hid hname
+    have h1 : (if uuid = true then refs.findIdx? (fun r' => r'.id == s) else none) = none := by
+      cases uuid with
+      | false => rfl
+      | true =>
+        simp only [if_true, List.findIdx?_eq_none_iff]
+        intro x hx
+        simpa using hid rfl x hx
+    have h2 : refs.findIdx? (fun r' => r'.name == s) = none := by
+      simp only [List.findIdx?_eq_none_iff]
+      intro x hx
+      simpa using hname x hx
+    simp only [refLookup, h1, h2]
+
+/-- **Tagged data by key.** Whatever key finds reference `k` — its index, a negative index, its id, its name —
+`Tag.tagged_data` / `MultiTag.tagged_data` is the region computation on *that* array (so the region theorems apply
+to it, and two keys that find the same reference give the same result); without references: `OutOfBounds`; an index
+`≥ len(references)`: `OutOfBounds` from a tag; a key that finds nothing: the lookup's error (`KeyError`,
+`IndexError`). -/
+theorem C08_tagged_by_key (t : TagDesc) (mt : MTagDesc) (refs : List RefEnt) (key : Key) (posidx : Nat)
+    (stop : SliceMode) :
+    (∀ k r, refLookup refs key = .ok k → refs[k]? = some r →
+      Tag.taggedDataBy t refs key stop = Tag.taggedData t refs.length k r.arr stop ∧
+      MultiTag.taggedDataBy mt refs posidx key stop = MultiTag.taggedData mt refs.length posidx k r.arr stop) ∧
+    (refs = [] → Tag.taggedDataBy t refs key stop = .error .outOfBounds ∧
+      MultiTag.taggedDataBy mt refs posidx key stop = .error .outOfBounds) ∧
+    (∀ i : Int, (refs.length : Int) ≤ i → Tag.taggedDataBy t refs (.idx i) stop = .error .outOfBounds) ∧
+    (∀ e, refs ≠ [] → refLookup refs key = .error e → keyBeyond refs.length key = false →
+      Tag.taggedDataBy t refs key stop = .error e) := by
+  refine ⟨?_, ?_, ?_, ?_⟩
+  · intro k r hk hr
+    have hlt := refLookup_lt refs key k hk
+    have h0 : ¬ refs.length = 0 := by omega
+    have hb : keyBeyond refs.length key = false := by
+      cases key with
+      | idx i =>
+        have := posOf_spec refs.length i
+        simp only [refLookup] at hk
+        rw [hk] at this
+        simp only [keyBeyond, decide_eq_false_iff_not]
+        omega
+      | text s u => rfl
+      | other => rfl
+    constructor
+    · simp only [Tag.taggedDataBy, h0, if_false, hb, Bool.false_eq_true, hk, hr]
+    · unfold MultiTag.taggedDataBy MultiTag.taggedData
+      simp only [h0, if_false, hk, hr]
+      split_ifs <;> rfl
+  · intro h
+    subst h
+    simp [Tag.taggedDataBy, MultiTag.taggedDataBy]
+  · intro i hi
+    unfold Tag.taggedDataBy
+    by_cases h0 : refs.length = 0
+    · simp [h0]
+    · have : keyBeyond refs.length (.idx i) = true := by simpa [keyBeyond] using hi
+      simp [h0, this]
+  · intro e hne he hb
+    have h0 : ¬ refs.length = 0 := by
+      intro h
+      exact hne (List.length_eq_zero_iff.mp h)
+    simp only [Tag.taggedDataBy, h0, if_false, hb, Bool.false_eq_true, he]
+
+/-- **Region theorem by key**: `C08_region` for a reference addressed by any key that finds it. -/
+theorem C08_region_by_key (t : TagDesc) (refs : List RefEnt) (key : Key) (k : Nat) (r : RefEnt) (stop : SliceMode)
+    (scs : List Rat) (hk : refLookup refs key = .ok k) (hr : refs[k]? = some r)
+    (hrank : r.arr.dims.length = r.arr.shape.length)
+    (hok : AxesOK stop r.arr.dims t.position t.extent (unitsOpt t.units) scs)
+    (hext : t.extent = [] ∨ t.extent.length = t.position.length) :
+    match Tag.taggedDataBy t refs key stop with
+    | .ok v =>
+      (v.valid = true ∧ v.parent = r.arr.shape ∧ WindowsIn v.window r.arr.shape ∧
+        WindowsExact stop r.arr.dims r.arr.shape t.position t.extent scs v.window ∧
+        viewRead v none = .ok (.sel (windowSel v.window))) ∨
+      (v.valid = false ∧ EmptyAxis stop r.arr.dims t.position t.extent scs ∧ ∀ ix, viewRead v ix = .ok .empty)
+    | .error e =>
+      (e = .indexError ∧ EmptyAxis stop r.arr.dims t.position t.extent scs) ∨
+      (e = .outOfBounds ∧ BeyondAxis stop r.arr.dims r.arr.shape t.position t.extent scs) := by
+  rw [((C08_tagged_by_key t ⟨.oneD [], none, []⟩ refs key 0 stop).1 k r hk hr).1]
+  exact C08_region t refs.length k r.arr stop scs hrank hok (refLookup_lt refs key k hk) hext
+
+/-- **Feature lookup** (`FeatureContainer.__getitem__` and the fallback of `feature_data`). Index as for
+references; the id of feature `i` (ids pairwise distinct) finds feature `i`; the name or id of a data array finds the
+*first* feature on that array (when the text is no feature's id); a text that is none of these is `KeyError`; another
+object is `TypeError`; an `ok` answer is an index of the list. -/
+theorem C08_feature_lookup (feats : List FeatEnt) :
+    (∀ i, i < feats.length → featLookup feats (.idx (i : Int)) = .ok i) ∧
+    (∀ k, k < feats.length → featLookup feats (.idx (-((k : Int) + 1))) = .ok (feats.length - 1 - k)) ∧
+    (∀ i : Int, ((feats.length : Int) ≤ i ∨ i < -(feats.length : Int)) →
+      featLookup feats (.idx i) = .error .indexError) ∧
+    (feats.Pairwise (fun a b => a.id ≠ b.id) → ∀ i f uuid, feats[i]? = some f →
+      featLookup feats (.text f.id uuid) = .ok i) ∧
+    (∀ s uuid k, (∀ f, f ∈ feats → f.id ≠ s) →
+      feats.findIdx? (fun f => f.dataName == s || f.dataId == s) = some k → featLookup feats (.text s uuid) = .ok k) ∧
+    (feats.Pairwise (fun a b => a.dataName ≠ b.dataName) → ∀ i f uuid, feats[i]? = some f →
+      (∀ g, g ∈ feats → g.id ≠ f.dataName ∧ g.dataId ≠ f.dataName) →
+      featLookup feats (.text f.dataName uuid) = .ok i) ∧
+    (∀ s uuid, (∀ f, f ∈ feats → f.id ≠ s ∧ f.dataName ≠ s ∧ f.dataId ≠ s) →
+      featLookup feats (.text s uuid) = .error .keyError) ∧
+    featLookup feats .other = .error .typeError ∧
+    (∀ key k, featLookup feats key = .ok k → k < feats.length) := by
+  have hnone : ∀ s, (∀ f, f ∈ feats → f.id ≠ s) → feats.findIdx? (fun f => f.id == s) = none := by
+    intro s h
+    simp only [List.findIdx?_eq_none_iff]
+    intro x hx
+    simpa using h x hx
+  refine ⟨fun i h => posOf_nat _ _ h, fun k h => posOf_neg _ _ h, ?_, ?_, ?_, ?_, ?_, rfl, featLookup_lt feats⟩
+  · intro i h
+    rcases h with h | h
+    · exact posOf_beyond _ _ h
+    · exact posOf_before _ _ h
+  · intro hd i f uuid hf
+    have := findIdx?_of_distinct feats (fun f => f.id) hd i f hf
+    simp only [featLookup, this]
+  · intro s uuid k hid hk
+    simp only [featLookup, hnone s hid, hk]
+  · intro hd i f uuid hf hno
+    have h1 := hnone f.dataName (fun g hg => (hno g hg).1)
+    have h2 : feats.findIdx? (fun g => g.dataName == f.dataName || g.dataId == f.dataName) = some i := by
+      have h3 := findIdx?_of_distinct feats (fun f => f.dataName) hd i f hf
+      have : ∀ g, g ∈ feats → (g.dataName == f.dataName || g.dataId == f.dataName) = (g.dataName == f.dataName) := by
+        intro g hg
+        have := (hno g hg).2
+        simp [this]
+      rw [← h3]
+      exact findIdx?_congr_mem feats _ _ this
+    simp only [featLookup, h1, h2]
+  · intro s uuid h
+    have h1 := hnone s (fun f hf => (h f hf).1)
+    have h2 : feats.findIdx? (fun f => f.dataName == s || f.dataId == s) = none := by
+      simp only [List.findIdx?_eq_none_iff]
+      intro x hx
+      have := h x hx
+      simp [this.2.1, this.2.2]
+    simp only [featLookup, h1, h2]
+
+/-- **Feature data by key.** Whatever key finds feature `k`, `feature_data` follows the link type and reads the
+data array of *that* feature (`C08_feature_tag` / `C08_feature_multi` then say what that is); without features:
+`OutOfBounds`; a key that finds nothing: the lookup's error. -/
+theorem C08_feature_by_key (t : TagDesc) (mt : MTagDesc) (feats : List FeatEnt) (key : Key) (posidx : Nat)
+    (stop : SliceMode) :
+    (∀ k f, featLookup feats key = .ok k → feats[k]? = some f →
+      Tag.featureDataBy t feats key stop = Tag.featureData t feats.length f.link f.data stop ∧
+      MultiTag.featureDataBy mt feats posidx key stop =
+        MultiTag.featureData mt feats.length posidx f.link f.data stop) ∧
+    (feats = [] → Tag.featureDataBy t feats key stop = .error .outOfBounds ∧
+      MultiTag.featureDataBy mt feats posidx key stop = .error .outOfBounds) ∧
+    (∀ e, feats ≠ [] → featLookup feats key = .error e →
+      Tag.featureDataBy t feats key stop = .error e ∧ MultiTag.featureDataBy mt feats posidx key stop = .error e) := by
+  refine ⟨?_, ?_, ?_⟩
+  · intro k f hk hf
+    have hlt := featLookup_lt feats key k hk
+    have h0 : ¬ feats.length = 0 := by omega
+    constructor
+    · simp only [Tag.featureDataBy, h0, if_false, hk, hf]
+    · simp only [MultiTag.featureDataBy, h0, if_false, hk, hf]
+  · intro h
+    subst h
+    simp [Tag.featureDataBy, MultiTag.featureDataBy]
+  · intro e hne he
+    have h0 : ¬ feats.length = 0 := by
+      intro h
+      exact hne (List.length_eq_zero_iff.mp h)
+    constructor
+    · simp only [Tag.featureDataBy, h0, if_false, he]
+    · simp only [MultiTag.featureDataBy, h0, if_false, he]
+
 /-! ## the statement without `Separated` is false (C07's tolerance band, by design) -/
 
 /-- the one-axis statement without the tolerance hypotheses -/
@@ -544,5 +749,33 @@ example : Tag.taggedData ⟨[3], [4], []⟩ 1 0 ⟨[5], [.sampled 0 1 none]⟩ .
   decide +kernel
 example : (MultiTag.taggedData ⟨.oneD [3], some (.oneD [4]), []⟩ 1 0 0 ⟨[5], [.sampled 0 1 none]⟩ .exclusive).toOption.map
     (·.valid) = some false := by decide +kernel
+
+/-- addressing: two references (a dummy, then `exArr`); by name, id, negative index — the same region of `exArr`;
+an index beyond: `OutOfBounds` from a tag, `IndexError` from a multi-tag; an unknown name: `KeyError` -/
+def exRefs : List RefEnt :=
+  [⟨"id-a".toList, "alpha".toList, ⟨[4], [.set 0]⟩⟩, ⟨"id-b".toList, "beta".toList, exArr⟩]
+
+example : Tag.taggedDataBy exTag exRefs (.text "beta".toList false) .exclusive =
+    .ok ⟨[6, 3], true, [(1, 3), (1, 2)]⟩ := by decide +kernel
+example : Tag.taggedDataBy exTag exRefs (.text "id-b".toList true) .exclusive =
+    .ok ⟨[6, 3], true, [(1, 3), (1, 2)]⟩ := by decide +kernel
+example : Tag.taggedDataBy exTag exRefs (.idx (-1)) .exclusive = .ok ⟨[6, 3], true, [(1, 3), (1, 2)]⟩ := by
+  decide +kernel
+example : refLookup exRefs (.text "alpha".toList false) = .ok 0 ∧ refLookup exRefs (.idx (-2)) = .ok 0 := by decide
+example : Tag.taggedDataBy exTag exRefs (.idx 2) .exclusive = .error .outOfBounds := by decide +kernel
+example : Tag.taggedDataBy exTag exRefs (.idx (-3)) .exclusive = .error .indexError := by decide +kernel
+example : Tag.taggedDataBy exTag exRefs (.text "gamma".toList false) .exclusive = .error .keyError := by decide +kernel
+example : MultiTag.taggedDataBy ⟨.oneD [1, 2], none, []⟩ exRefs 0 (.idx 2) .exclusive = .error .indexError := by
+  decide +kernel
+/-- two features on the same array: its name finds the first (untagged: the whole array), the second feature's id
+finds the second (tagged: the region) -/
+def exFeats : List FeatEnt :=
+  [⟨"f0".toList, "id-b".toList, "beta".toList, .untagged, exArr⟩,
+   ⟨"f1".toList, "id-b".toList, "beta".toList, .tagged, exArr⟩]
+example : Tag.featureDataBy exTag exFeats (.text "beta".toList false) .exclusive =
+    .ok ⟨[6, 3], true, [(0, 6), (0, 3)]⟩ := by decide +kernel
+example : Tag.featureDataBy exTag exFeats (.text "f1".toList true) .exclusive =
+    .ok ⟨[6, 3], true, [(1, 3), (1, 2)]⟩ := by decide +kernel
+example : Tag.featureDataBy exTag exFeats .other .exclusive = .error .typeError := by decide +kernel
 
 end Nix.C08
